@@ -78,14 +78,15 @@ AUTH_MODELS = [
 ]
 
 ADMIN_DRIVERS = [{"name": "admin", "args": {"quick": [240], "thorough": [6000]}}]
+RECV_DRIVERS = [{"name": "recv", "args": {"quick": [60], "thorough": [3000]}}]
 ADMIN_MODELS = [
     {"name": "admin", "module": "Admin.tla", "cfg": {"quick": "MC_AdminQuick.cfg", "thorough": "MC_AdminThorough.cfg"},
      "setup": "setups/auth.json", "init_from_setup": True},
 ]
 
-def txm(n):
+def txm(n, setup="setups/auth.json"):
     return {"name": "tx" + n.lower(), "module": "MC_TxShape.tla", "cfg": {"quick": f"MC_Tx{n}Quick.cfg", "thorough": f"MC_Tx{n}Thorough.cfg"},
-            "setup": "setups/auth.json", "timeout": {"quick": 900, "thorough": 7200}}
+            "setup": setup, "timeout": {"quick": 900, "thorough": 7200}}
 
 
 def tx_nontrivial(e):
@@ -112,7 +113,7 @@ PROPS = {
             "nontrivial": pure_nontrivial("curve"),
             "rule": "each curve configuration passed to the real validate() (and, if accepted, calc_interest_rate over an ascending utilization sweep) is one evaluation; all are non-trivial; distinct by configuration",
             "min_nontrivial": 1000},
-    "C10": {"models": [txm("Recv")], "drivers": ADMIN_DRIVERS + LIQ_DRIVERS, "nontrivial": tx_nontrivial,
+    "C10": {"models": [txm("Recv"), txm("Recv2", "setups/tx.json")], "drivers": ADMIN_DRIVERS + LIQ_DRIVERS + RECV_DRIVERS, "nontrivial": tx_nontrivial,
             "rule": "each instruction list executed as one atomic transaction on the real program is one evaluation; all are non-trivial; distinct by (instruction list, result)",
             "min_nontrivial": 1000},
     "C11": {"models": [txm("Flash"), txm("Flash3")], "drivers": ADMIN_DRIVERS, "nontrivial": tx_nontrivial,
